@@ -9,8 +9,10 @@ import (
 	"os/exec"
 	"runtime"
 	"strings"
+	"sync"
 	"time"
 
+	"github.com/scrapli/scrapligo/channel"
 	"github.com/scrapli/scrapligo/driver/netconf"
 	"github.com/scrapli/scrapligo/driver/options"
 
@@ -55,6 +57,7 @@ type c07Obs struct {
 	Second       string  `json:"second_close,omitempty"`
 	SecondReturn bool    `json:"second_returned"`
 	Trace        []string `json:"trace,omitempty"`
+	Infeasible   bool     `json:"infeasible,omitempty"`
 }
 
 func genC07(r *sim.Rng) *c07Case {
@@ -75,6 +78,26 @@ func runC07(seed uint64, n int, tier string) {
 		for _, s := range []string{"idle", "blocked", "eof", "ioerr", "data-arriving", "error-arriving", "second-close", "after-op"} {
 			for oc := 0; oc < 3; oc++ {
 				cases = append(cases, &c07Case{Driver: d, State: s, OnClose: oc, DelayUS: 250})
+			}
+		}
+	}
+	// forced orders: every pair (reader-side label, closer-side label) in both orders, per driver
+	// and state (labels that the state never reaches are reported as infeasible and not counted)
+	readerLabels := []string{"read:top", "read:before-transport-read", "read:after-read-error", "read:before-error-handoff", "read:before-enqueue"}
+	for _, d := range []string{"generic", "netconf"} {
+		closeLabels := []string{"close:start", "close:after-done"}
+		rl := readerLabels
+		if d == "netconf" {
+			closeLabels = append(closeLabels, "ncclose:start", "ncclose:after-done")
+			rl = append(append([]string{}, readerLabels...), "ncread:top", "ncread:before-error-handoff", "Read:start")
+		}
+		for _, st := range []string{"idle", "ioerr", "data-arriving", "eof"} {
+			for _, a := range rl {
+				for _, b := range closeLabels {
+					for _, ord := range []string{"ab", "ba"} {
+						cases = append(cases, &c07Case{Driver: d, State: st, OnClose: 0, DelayUS: 250, Force: []string{a, b, ord}})
+					}
+				}
 			}
 		}
 	}
@@ -143,6 +166,14 @@ func runC07Case(id string, c *c07Case) {
 		cs.Sig = "C07:race:" + raceSite(stderr)
 	}
 	cs.Obs = fmt.Sprintf("returned=%v closed=%v", o.Returned, o.Closed)
+	if len(c.Force) == 3 {
+		cs.Kind = "forced/" + cs.Kind
+		if o.Infeasible {
+			cs.Kind = "forced-infeasible"
+			cs.Nontrivial = false
+		}
+	}
+	cs.Trace = o.Trace
 	emit(cs)
 }
 
@@ -204,12 +235,57 @@ func (d *idleDev) Feed(b []byte) [][]byte {
 	return nil
 }
 
+// yieldCtl records the labels the instrumented code passes (verif build tag) and can park the
+// goroutines that reach two chosen labels, releasing them in a chosen order.
+type yieldCtl struct {
+	mu      sync.Mutex
+	trace   []string
+	park    map[string]chan struct{} // label -> gate (closed = released)
+	arrived map[string]chan struct{}
+	armed   bool
+}
+
+func (y *yieldCtl) yield(label string) {
+	y.mu.Lock()
+	if len(y.trace) < 400 {
+		y.trace = append(y.trace, label)
+	}
+	var gate chan struct{}
+	if y.armed {
+		if g, ok := y.park[label]; ok {
+			select {
+			case <-y.arrived[label]:
+				// already used once
+			default:
+				close(y.arrived[label])
+				gate = g
+			}
+		}
+	}
+	y.mu.Unlock()
+	if gate != nil {
+		select {
+		case <-gate:
+		case <-time.After(2 * time.Second):
+		}
+	}
+}
+
 func c07Child() {
 	var c c07Case
 	if json.Unmarshal([]byte(os.Getenv("VERIF_C07_CHILD")), &c) != nil {
 		return
 	}
 	o := c07Obs{}
+	ctl := &yieldCtl{park: map[string]chan struct{}{}, arrived: map[string]chan struct{}{}}
+	channel.VerifYield = ctl.yield
+	netconf.VerifYield = ctl.yield
+	if len(c.Force) == 3 {
+		for _, l := range c.Force[:2] {
+			ctl.park[l] = make(chan struct{})
+			ctl.arrived[l] = make(chan struct{})
+		}
+	}
 	g0 := runtime.NumGoroutine()
 	o.Goroutines0 = g0
 	hello := []byte("router#")
@@ -262,6 +338,32 @@ func c07Child() {
 	}
 	if c.JitterUS > 0 {
 		time.Sleep(time.Duration(c.JitterUS) * time.Microsecond)
+	}
+	if len(c.Force) == 3 {
+		ctl.mu.Lock()
+		ctl.armed = true
+		ctl.mu.Unlock()
+		// release the two parked goroutines in the requested order once both have arrived
+		go func() {
+			a, b := c.Force[0], c.Force[1]
+			if c.Force[2] == "ba" {
+				a, b = b, a
+			}
+			both := true
+			for _, l := range []string{a, b} {
+				select {
+				case <-ctl.arrived[l]:
+				case <-time.After(250 * time.Millisecond):
+					both = false
+				}
+			}
+			if !both {
+				o.Infeasible = true
+			}
+			close(ctl.park[a])
+			time.Sleep(2 * time.Millisecond)
+			close(ctl.park[b])
+		}()
 	}
 	res := make(chan string, 1)
 	t0 := time.Now()
@@ -320,6 +422,9 @@ func c07Child() {
 	}
 	// +1: the goroutine that ran closer() has returned by now; nothing of the harness remains
 	o.Goroutines1 = runtime.NumGoroutine()
+	ctl.mu.Lock()
+	o.Trace = append([]string(nil), ctl.trace...)
+	ctl.mu.Unlock()
 	if o.Goroutines1 > g0 && os.Getenv("VERIF_C07_STACKS") != "" {
 		buf := make([]byte, 1<<16)
 		n := runtime.Stack(buf, true)
